@@ -22,8 +22,8 @@ NSYNC_CPP_USING_
 static int D_MS = 50;
 enum { DL_ZERO, DL_P1NS, DL_M1NS, DL_P1S, DL_M1S, DL_NEG31, DL_MIN64, DL_NOW_MINUS, DL_NOW, DL_NOW_PLUS, DL_MAXM1, DL_NONE, DL_N };
 static const char *const dl_name[] = { "zero", "+1ns", "-1ns", "+1s", "-1s", "-2^31s", "INT64_MIN s", "now-d", "now", "now+d", "no_deadline-1ns", "no_deadline" };
-enum { EP_CV, EP_CV_NOTE, EP_CV_READER, EP_MU_FALSE, EP_MU_TRUE, EP_MU_NOTE, EP_NOTE_WAIT, EP_COUNTER_WAIT, EP_WAITN_NOTE, EP_WAITN_COUNTER, EP_WAITN_CV, EP_WAITN_5, EP_N };
-static const char *const ep_name[] = { "cv_wait", "cv_wait+note", "cv_wait(reader)", "mu_wait(cond false)", "mu_wait(cond true)", "mu_wait+note", "note_wait", "counter_wait", "wait_n{note}", "wait_n{counter}", "wait_n{cv}", "wait_n{5 objects}" };
+enum { EP_CV, EP_CV_NOTE, EP_CV_READER, EP_MU_FALSE, EP_MU_TRUE, EP_MU_NOTE, EP_NOTE_WAIT, EP_COUNTER_WAIT, EP_WAITN_NOTE, EP_WAITN_COUNTER, EP_WAITN_CV, EP_WAITN_5, EP_NOTE_OWN, EP_N };
+static const char *const ep_name[] = { "cv_wait", "cv_wait+note", "cv_wait(reader)", "mu_wait(cond false)", "mu_wait(cond true)", "mu_wait+note", "note_wait", "counter_wait", "wait_n{note}", "wait_n{counter}", "wait_n{cv}", "wait_n{5 objects}", "note_new(deadline)" };
 enum { EV_NEVER, EV_ALREADY, EV_LATER, EV_N };
 static const char *const ev_name[] = { "never", "already happened", "happens at +d/2" };
 
@@ -51,7 +51,8 @@ static nsync_mu mu; static nsync_cv cv; static int flag;
 static nsync_note note, notes[3]; static nsync_counter ctr, ctr2;
 static int ev_kind;
 static nsync_time event_time, used_deadline;   /* when the late event was actually made; the deadline the case used */
-static volatile int event_made;
+static volatile int event_made, event_begun;
+static nsync_note own_parent;     /* EP_NOTE_OWN: the note under test is created with the deadline itself, under this parent */
 static int cond (const void *v) { return *(const int *) v != 0; }
 static void lk (void *m) { nsync_mu_lock ((nsync_mu *) m); }
 static void ulk (void *m) { nsync_mu_unlock ((nsync_mu *) m); }
@@ -60,8 +61,8 @@ static void make_event (int ep) {
 	switch (ep) {
 	case EP_CV: case EP_CV_READER: case EP_MU_FALSE: case EP_WAITN_CV:
 		nsync_mu_lock (&mu); flag = 1; nsync_cv_broadcast (&cv); nsync_mu_unlock (&mu); break;
-	case EP_CV_NOTE: case EP_MU_NOTE: case EP_NOTE_WAIT: case EP_WAITN_NOTE: case EP_WAITN_5:
-		nsync_note_notify (note); break;
+	case EP_CV_NOTE: case EP_MU_NOTE: case EP_NOTE_WAIT: case EP_WAITN_NOTE: case EP_WAITN_5: case EP_NOTE_OWN:
+		event_begun = 1; nsync_note_notify (note); break;
 	case EP_COUNTER_WAIT: case EP_WAITN_COUNTER:
 		nsync_counter_add (ctr, -1); break;
 	}
@@ -103,6 +104,18 @@ static int run_case (int ep, int dlk) {
 		r = 0; while (!flag && r == 0) r = nsync_wait_n (&mu, &lk, &ulk, dl, 1, pw);
 		nsync_mu_unlock (&mu);
 		return r == 0 ? 0 : 1;
+	case EP_NOTE_OWN: {
+		/* the deadline was given to nsync_note_new (child()); an untimed wait on the note ends by its expiry
+		   ("timeout" result) or by the notification (event result); whichever it is, the poll, a child created
+		   afterwards and a notification of the parent must agree and return */
+		int by_event, kn; nsync_note kid;
+		if (!nsync_note_wait (note, nsync_time_no_deadline)) return 5;
+		by_event = event_begun;
+		if (!nsync_note_is_notified (note)) return 6;
+		kid = nsync_note_new (note, nsync_time_no_deadline); kn = nsync_note_is_notified (kid); nsync_note_free (kid);
+		if (!kn) return 7;
+		nsync_note_notify (own_parent);
+		return by_event ? 0 : 1; }
 	case EP_WAITN_5:
 		for (i = 0; i < 3; i++) { w[i].v = notes[i]; w[i].funcs = &nsync_note_waitable_funcs; pw[i] = &w[i]; }
 		w[3].v = ctr2; w[3].funcs = &nsync_counter_waitable_funcs; pw[3] = &w[3];
@@ -119,6 +132,7 @@ static int child (int ep, int dlk, int ev) {
 	for (r = 0; r < 3; r++) notes[r] = nsync_note_new (NULL, nsync_time_no_deadline);
 	ctr = nsync_counter_new (1); ctr2 = nsync_counter_new (1);
 	ev_kind = ev;
+	if (ep == EP_NOTE_OWN) { own_parent = nsync_note_new (NULL, nsync_time_no_deadline); note = nsync_note_new (own_parent, deadline_of (dlk)); }
 	if (ev == EV_ALREADY) make_event (ep);
 	if (ev == EV_LATER) pthread_create (&th, NULL, &later, (void *) (intptr_t) ep);
 	t0 = nsync_time_now ();
